@@ -451,6 +451,7 @@ func refineOne(P *Program, ic *FuncContract, ifaceT types.Type, c *FuncContract,
 				bg = append(bg, "(assert "+cPre.trBool(r.E)+")")
 			}
 			cPost, iPost := mk(c, post, false), mk(ic, post, true)
+			cPost.postAlloc, iPost.postAlloc = post.get("alloc"), post.get("alloc")
 			for _, en := range c.Ensures {
 				bg = append(bg, "(assert "+cPost.trBool(en.E)+")")
 			}
